@@ -112,7 +112,10 @@ fn serialize_range_mappings(sm: &SourceMap) -> Option<String> {
             had_rmi = true;
             empty = false;
 
-            rmi_data.resize(rmi_data.len() + 2, 0);
+            // make room for bit `num`
+            if rmi_data.len() * 8 <= num {
+                rmi_data.resize(num / 8 + 1, 0);
+            }
 
             let rmi_bits = rmi_data.view_bits_mut::<Lsb0>();
             rmi_bits.set(num, true);
